@@ -351,7 +351,7 @@ PLANS["C15"] = {
 
 
 def _c16(tier, seed):
-    return [{"engine": "crash", "args": [], "cases": 224 if tier == "quick" else 2800, "shards": N,
+    return [{"engine": "crash", "args": [], "cases": 672 if tier == "quick" else 5600, "shards": N,
              "timeout": 1800 if tier == "quick" else 7200, "aux_bins": {"IMBV_CRASH_EXEC": ("base", True)}}]
 
 
@@ -369,11 +369,13 @@ PLANS["C16"] = {
              "collected before the crash never come back; queue size matches before and is 0 after; a follow-up "
              "episode of 12 verified jobs runs on the re-attached manager. Secondary kinds: same process (control), "
              "forked child, fork+exec of the PIE/shared-library build (library load address recorded on both sides). "
+             "The first 2 x 7 x 40 histories walk systematically through (variant, out-of-order manager): 80 % of their jobs go to "
+             "that manager in its parking direction, so all its lanes are occupied at the crash points. "
              "quick: kinds rotate over crash points; thorough: all three kinds at every point. distinct = distinct "
              "(variant, history, crash point, kind) points and (variant, last call, in-flight bucket, kind) states; "
              "non-trivial = at least one job in flight at the crash."),
-    "floors": {"quick": {"crash_points": 8000, "points_with_inflight": 7000, "jobs_recovered": 80000,
-                         "exec_secondaries_other_load_address": 2000, "cov:crash_state": 300}},
+    "floors": {"quick": {"crash_points": 24000, "points_with_inflight": 20000, "jobs_recovered": 200000,
+                         "exec_secondaries_other_load_address": 6000, "cov:crash_state": 300, "cov:crash_focus": 2000}},
     "assumptions": ["a crash inside a library call (manager state half-updated) is outside the property ('between "
                     "API calls')", "CUSTOM cipher/hash jobs (function pointers supplied by the dead process) are not "
                     "part of the histories"],
